@@ -82,6 +82,13 @@ def variants():
     add("Division operands swapped", swap_division=True)
     add("index pattern A[i,j]B[i,j] -> A[i,j]B[j,i]", index_pattern="ij,ji")
     add("index pattern A[i,j]B[i,j] -> A[i,i]B[j,j]", index_pattern="ii,jj")
+    # a free index replaced by the fixed index 0 in one position (index numbers and fixed values are different namespaces)
+    add("index pattern A[i,j]B[i,j] -> A[i,j]B[0,j]", index_pattern="ij,0j")
+    add("index pattern A[i,j]B[i,j] -> A[i,j]B[i,0]", index_pattern="ij,i0")
+    add("index pattern A[i,j]B[i,j] -> A[0,j]B[i,j]", index_pattern="0j,ij")
+    add("index pattern A[i,j]B[i,j] -> A[i,0]B[i,j]", index_pattern="i0,ij")
+    add("index pattern A[i,j]B[i,j] -> A[i,j]B[1,j]", index_pattern="ij,1j")
+    add("index pattern A[i,j]B[i,j] -> A[i,j]B[i,1]", index_pattern="ij,i1")
     add("fixed index 0 -> 1", fixed=1)
     add("coefficient degree 2 -> 3", f_degree=3)
     add("coefficient family P -> DG", f_family="DG")
@@ -167,7 +174,7 @@ def build(W, p):
     scal = dict(ufl_shape=(), ufl_free_indices=(), ufl_index_dimensions=())
     idx = lambda t, *ii: W.op("Indexed", t, W.multiindex(*ii), **scal)  # noqa: E731
     pa, pb = p["index_pattern"].split(",")
-    ix = {"i": i, "j": j}
+    ix = {"i": i, "j": j, "0": 0, "1": 1}
     contraction = W.op("IndexSum", W.op("IndexSum", W.op("Product", idx(A, *[ix[ch] for ch in pa]), idx(B, *[ix[ch] for ch in pb]), **scal), W.multiindex(j), **scal), W.multiindex(i), **scal)
     fo = f
     if p["restricted"]:
